@@ -777,8 +777,23 @@ func bulkWindows(r *rng, scale int, sum *summary, seen map[string]bool) {
 					fmt.Sprintf("%s: got (%v, nil), the joined load failed", desc, sec.m))
 			}
 		}
+		// what is left in the cache for k, by the protocol model's events: LVolunteer k 7777 (if volunteered)
+		// happened when the overlapping call's own load finished, LFinish of the joined load afterwards:
+		// a value overwrites it, not-found removes it (the call is still the registered one), an error
+		// leaves it
+		wantV, wantOK := 0, false
+		switch {
+		case outcome == 0:
+			wantV, wantOK = 2000, true
+		case outcome == 2 && volunteer:
+			wantV, wantOK = 7777, true
+		}
+		if e, ok := c.GetEntryQuietly(k); ok != wantOK || (ok && e.Value != wantV) {
+			sum.fail("C08", "bulk-final-state", "after a bulk load that volunteered a key another load was in flight for, the cache does not hold what the protocol's events leave",
+				fmt.Sprintf("%s: cache holds (%v,%v), expected (%d,%v)", desc, e.Value, ok, wantV, wantOK))
+		}
 		if v, ok := sec.m[other]; sec.err == nil && (!ok || v != 100*other) {
-			sum.fail("C10", "bulk-own-value", "a BulkGet did not return the value its own loader produced", fmt.Sprintf("%s: got %v", desc, sec.m))
+			sum.fail("C08", "bulk-own-value", "a BulkGet did not return the value its own loader produced", fmt.Sprintf("%s: got %v", desc, sec.m))
 		}
 		if n := otter.VerifInFlight(c); n != 0 {
 			sum.fail("C08", "table-not-clean", "in-flight records are left behind after every load has finished", fmt.Sprintf("%s records=%d", desc, n))
